@@ -1,7 +1,7 @@
 (* props/C02.v — Python decode inverts encode and consumes exactly the message. *)
 From Coq Require Import ZArith List Bool Lia.
 From Prophy Require Import Bytes Schema Layout Wire Src PyStatics PyEncode PyDecode
-  Arith SpecAlign Views SpecLen PyEncodeFacts PyRoundtrip PyRoundtripGreedy.
+  Arith SpecAlign Views SpecLen PyEncodeFacts PyRoundtrip PyRoundtripGreedy TailFacts.
 Import ListNotations.
 Local Open Scope Z_scope.
 
@@ -35,18 +35,18 @@ Proof. exact py_dec_roundtrip. Qed.
 Print Assumptions C02_roundtrip_nested.
 
 (* messages WITH a greedy tail, when the tail ends aligned — the case the property claims, the
-   documented exception being tails that do not. [tail_clean t v]: the final padding of every
-   struct on the path down to the greedy array is empty (nothing follows the last element). It is
-   the recursive form of the spec's [greedy_tail_aligned] (Wire.v: the last unl_depth segments of
-   the layout are empty); that the two predicates agree is evaluated on every generated case by the
-   correspondence run (CheckLib.tail_defs_case), not proved. *)
+   documented exception being tails that do not. [greedy_tail_aligned t v] is the spec's predicate
+   (Wire.v): the last unl_depth segments of the layout — the final paddings of the structs on the
+   way down to the greedy array — are empty, i.e. nothing follows the last element. The proof works
+   with the recursive form [tail_clean]; TailFacts.greedy_tail_aligned_clean shows they are equal. *)
 Theorem C02_roundtrip_greedy_tail_aligned :
   forall (e : endian) (fs : list field) (v : value),
     legal (TStruct fs) = true -> stiffness (TStruct fs) = Unlimited ->
-    wt (TStruct fs) v = true -> within_guard (TStruct fs) v = true -> tail_clean (TStruct fs) v = true ->
+    wt (TStruct fs) v = true -> within_guard (TStruct fs) v = true -> greedy_tail_aligned (TStruct fs) v = true ->
     exists b, py_enc e (TStruct fs) v = Ok b /\ py_decode e (TStruct fs) b = Ok (v, len b).
 Proof.
-  intros e fs v Hl Hu Hw Hg Ht. exists (wire e (TStruct fs) v). split.
+  intros e fs v Hl Hu Hw Hg Ht. rewrite (greedy_tail_aligned_clean _ _ Hl Hw Hu) in Ht.
+  exists (wire e (TStruct fs) v). split.
   - apply py_enc_canonical; [reflexivity|exact Hl|exact Hw].
   - apply py_decode_roundtrip_unl; assumption.
 Qed.
